@@ -12,14 +12,16 @@ PROPS = {}
 PROPS["C19"] = dict(
     units=["crc"],
     kani_quick=["c19_crc16_table_entry", "c19_crc32_table0_entry", "c19_crc32_tablek_entry",
-                "c19_update_crc16_step", "c19_update_crc32_step"],
-    kani_thorough=["c19_bounded_oneshot_vs_incremental_len3"],
-    kani_bounded={"c19_bounded_oneshot_vs_incremental_len3": "strings of length <= 3 (unwind 5); cross-check only, not counted"},
+                "c19_update_crc16_step", "c19_update_crc32_step", "c19_bounded_crc16_len9"],
+    kani_thorough=["c19_bounded_oneshot_vs_incremental_len3", "c19_bounded_crc32_len20"],
+    kani_bounded={"c19_bounded_oneshot_vs_incremental_len3": "strings of length <= 3 (unwind 5); cross-check only, not counted",
+                  "c19_bounded_crc16_len9": "get_crc16 against the incremental update for every string of length <= 9 (unwind 11); bounded stand-in that still decides when a restructured get_crc16 is outside the extractor's reach; not counted as proved",
+                  "c19_bounded_crc32_len20": "get_crc32 against the incremental update for every prefix (length 0..=40, symbolic) of ONE fixed 40-byte string (unwind 42): CBMC cannot carry symbolic data through the slicing-by-16 tables (no answer in 30 min); bounded stand-in, not counted as proved"},
     paired_kani={"update_crc16": ["c19_update_crc16_step", "c19_crc16_table_entry"],
                  "update_crc32": ["c19_update_crc32_step", "c19_crc32_table0_entry"],
                  "update_slow": ["c19_crc32_table0_entry", "c19_bounded_oneshot_vs_incremental_len3"],
-                 "get_crc16": ["c19_bounded_oneshot_vs_incremental_len3"],
-                 "get_crc32": ["c19_bounded_oneshot_vs_incremental_len3", "c19_crc32_tablek_entry"]},
+                 "get_crc16": ["c19_bounded_crc16_len9", "c19_bounded_oneshot_vs_incremental_len3"],
+                 "get_crc32": ["c19_bounded_oneshot_vs_incremental_len3", "c19_crc32_tablek_entry", "c19_bounded_crc32_len20"]},
     trusted_base=COMMON_TRUST + [
         "table entry facts are assumed in Verus (external_body proof fns crc16_table_entry, crc32_table0_entry, "
         "crc32_tablek_entry) and each is discharged on the real tables by the Kani harness of the same name",
